@@ -10,6 +10,8 @@ var checks = map[string]*checkDef{
 			{workload: "C18B", variant: "instr", quick: 20000, thorough: 1000000},
 			{workload: "C18C", variant: "instr-race", quick: 2000, thorough: 100000},
 			{workload: "C18D", variant: "instr-race", quick: 1600, thorough: 30000, cold: true},
+			{workload: "C18E", variant: "instrw", quick: 4000, thorough: 200000},
+			{workload: "C18E", variant: "instrw-race", quick: 800, thorough: 40000},
 			{workload: "C18A", variant: "instr-race", quick: 16000, thorough: 0},
 			{workload: "C18B", variant: "instr-race", quick: 3200, thorough: 0},
 			{workload: "C18A", variant: "instr-race", thorough: 400000, thoroughOnly: true},
@@ -68,6 +70,7 @@ var checks = map[string]*checkDef{
 		plan: []planItem{
 			{workload: "C02", variant: "plain", quick: 16000, thorough: 600000},
 			{workload: "C02F", variant: "plain", quick: 160, thorough: 3200},
+			{workload: "C02C", variant: "instrw", quick: 6000, thorough: 300000},
 			{workload: "C02", variant: "noavx2", quick: 1600, thorough: 40000},
 			{workload: "C02", variant: "purego", quick: 1600, thorough: 40000},
 			{workload: "C02", variant: "force32bit", quick: 1600, thorough: 20000},
